@@ -160,3 +160,24 @@ def run(ctx):
                               "timestamps are converted as `%s`, not through time_from_underlying" % r, where=b.loc())
     if n == 0:
         rep.violation("OVL-4", "<anchor>", "PortTimestampToTime for OverlayClock", "impl not found")
+    # wrappers of an overlay clock (SharedClock<OverlayClock<..>>) must convert through the overlay's own conversion
+    for b in prog.bodies.values():
+        if b.name != "port_timestamp_to_time" or b.is_closure or b.is_test() or b.self_name == "OverlayClock":
+            continue
+        try:
+            st_ = b.ty(b.j["self_ty"])["s"] if b.j.get("self_ty") is not None else ""
+        except Exception:
+            st_ = ""
+        if "OverlayClock" not in st_:
+            continue
+        r = df.canon(df.Prov(b).local_tree(0), b)
+        calls = [(c_["name"], c_.get("resolved") or c_["key"]) for _, t_, c_ in mir.iter_calls(b)]
+        via_overlay = any(nm == "port_timestamp_to_time" and "OverlayClock" in key for nm, key in calls)
+        bypass = any(nm in ("underlying", "underlying_mut") for nm, key in calls)
+        if via_overlay and not bypass:
+            rep.ok("OVL-4", b.key, "wrapper converts through the overlay", detail=r, where=b.loc())
+        else:
+            rep.violation("OVL-4", b.key, "wrapper converts through the overlay",
+                          "%s converts timestamps as `%s` (calls: %s): the overlay's map (shift and frequency) is bypassed, so "
+                          "converted timestamps disagree with the clock's readings" % (st_.split("::")[-1], r, calls),
+                          where=b.loc())
